@@ -18,6 +18,7 @@ def kindOf : String → Option FileKind
 
 def mutOf : String → Option Mutation
   | "flip" => some .flip | "truncate" => some .truncate | "delete" => some .delete | "none" => some .none
+  | "swapped" => some .swapped
   | _ => none
 
 def outOf : String → Option Bool
